@@ -30,7 +30,7 @@ if sys.argv[1] == "--recheck":  # tools/save_seed.py --recheck <seed id> <check 
 src, sid, checks = pathlib.Path(sys.argv[1]), sys.argv[2], sys.argv[3:]
 dst = pathlib.Path("/verif/seeded") / sid
 dst.mkdir(parents=True, exist_ok=True)
-for f in src.iterdir():
+for f in ([] if src.resolve() == dst.resolve() else src.iterdir()):  # src == dst: re-confirm a stored (e.g. rebased) seed
     if f.is_file() and f.stat().st_size < 400_000 and f.name in ("patch.diff", "notes.txt") or f.name.startswith("demo"):
         if f.is_file():
             shutil.copy(f, dst / f.name)
